@@ -775,7 +775,7 @@ def classify(ctx: HandlerContext) -> Classification:
     - Interactive mode
     """
     tokens = ctx.tokens
-    cwd = Path.cwd()
+    cwd = ctx.cwd if ctx.cwd is not None else Path.cwd()
 
     desc = get_description(tokens)
 
